@@ -29,6 +29,23 @@ let handle cmd args =
                    | B64Ok o -> "S " ^ hex o | B64Err -> "N" | B64Bound -> "BOUND")
   | "qp", [s] -> "S " ^ hex (cview (quoted_printable_decode (unhex s)))
   | "r2047", [s] -> "S " ^ hex (cview (rfc2047_decode (unhex s)))
+  | "msg", file :: _name :: ops ->
+      (match parse_message (unhex file) with
+       | None -> "FUEL"
+       | Some m0 ->
+           let m = ref m0 in
+           let out = List.map (fun op ->
+             let arg = String.sub op 1 (String.length op - 1) in
+             match op.[0] with
+             | 'G' -> (match get_header (!m).m_headers (unhex arg) with
+                       | None -> "GN"
+                       | Some vs -> "G" ^ string_of_int (List.length vs) ^ String.concat "" (List.map (fun v -> "," ^ hex v) vs))
+             | 'S' -> (match String.split_on_char ':' arg with
+                       | [k; v] -> m := { !m with m_headers = set_header (!m).m_headers (unhex k) (unhex v) }; "S"
+                       | _ -> "?")
+             | 'W' -> let (b, m') = message_write !m in m := m'; "W" ^ hex b
+             | _ -> "?") ops in
+           String.concat " " out)
   | _ -> "ERR unknown command " ^ cmd
 
 let () =
